@@ -13,6 +13,7 @@ import (
 type SpecEnv struct {
 	names    map[string]Val
 	old      *SpecEnv
+	before   *SpecEnv // state at the start of the current loop iteration (`loop k each` clauses)
 	pkg      *types.Package
 	typeArgs map[string]types.Type
 	st       *State // state receiving side assumptions (type invariants of reads); may be nil
@@ -28,7 +29,7 @@ type specFail struct{ msg string }
 func sfail(format string, a ...any) { panic(specFail{fmt.Sprintf(format, a...)}) }
 
 func (e *SpecEnv) child() *SpecEnv {
-	n := &SpecEnv{names: map[string]Val{}, old: e.old, pkg: e.pkg, typeArgs: e.typeArgs, st: e.st, depth: e.depth, macros: e.macros, gh: e.gh, inOld: e.inOld, localFallback: e.localFallback}
+	n := &SpecEnv{names: map[string]Val{}, old: e.old, before: e.before, pkg: e.pkg, typeArgs: e.typeArgs, st: e.st, depth: e.depth, macros: e.macros, gh: e.gh, inOld: e.inOld, localFallback: e.localFallback}
 	for k, v := range e.names {
 		n.names[k] = v
 	}
@@ -563,6 +564,19 @@ func (f *Frame) specCall(x *SCall, env *SpecEnv) Val {
 			}
 			oe.old = nil
 			return f.specEval(x.Args[0], oe)
+		case "before":
+			if env.before == nil {
+				sfail("before() outside a `loop k each` clause")
+			}
+			oe := env.before.child()
+			oe.st = env.st
+			oe.macros = env.macros
+			for k, v := range env.names {
+				if _, ok := oe.names[k]; !ok {
+					oe.names[k] = v
+				}
+			}
+			return f.specEval(x.Args[0], oe)
 		case "len", "cap":
 			v := f.specEval(x.Args[0], env)
 			if v.Ty == nil {
@@ -744,7 +758,19 @@ func (f *Frame) specCall(x *SCall, env *SpecEnv) Val {
 					return Val{T: v.T}
 				}
 			}
-			sfail("calls(%s): no such counter in this state", an.Name)
+			// a counter this function's own contract does not mention (it comes from a callee's contract):
+			// an unconstrained non-negative value, created on demand in the state the clause is read in
+			n := f.c.fresh("calls_"+an.Name, "Int")
+			f.c.ghSorts[k] = "Int"
+			if env.gh != nil {
+				env.gh[k] = Val{T: n}
+			} else if env.st != nil {
+				env.st.gh[k] = Val{T: n}
+			}
+			if env.st != nil {
+				env.st.assume(fmt.Sprintf("(>= %s 0)", n))
+			}
+			return Val{T: n}
 		case "isnil":
 			v := f.specEval(x.Args[0], env)
 			st := env.st
